@@ -20,7 +20,7 @@
 (***************************************************************************)
 EXTENDS Integers, Sequences, FiniteSets, TLC, Json
 
-CONSTANTS FIXED,        \* SUBSET {"F3","F4","F5","F6","F8"}
+CONSTANTS FIXED,        \* SUBSET {"F3","F4","F5","F6","F8","F18"}
           MaxCalls,     \* bound on life-cycle calls (SetOpt / Setup / Solve) per behaviour
           MaxIterDom,   \* values maxIterations may take, e.g. {0, 2}
           ExtDom,       \* extrapolation values, subset of 0..3
@@ -30,10 +30,11 @@ CONSTANTS FIXED,        \* SUBSET {"F3","F4","F5","F6","F8"}
           GenHist       \* TRUE: record the history of life-cycle calls (test-case generation)
 
 VARIABLES opts, built, fgs, resNorms, exErrs, nIter, meanRho, initNorm, curNorm, start,
-          sid, pc, k, mh, memo, sh, calls, stopped, justSolved, hist
+          sid, pc, k, mh, memo, sh, calls, stopped, justSolved, hist,
+          tsolve    \* solve ids whose durations are contained in the public t_solve_* timings
 
 vars == <<opts, built, fgs, resNorms, exErrs, nIter, meanRho, initNorm, curNorm, start,
-          sid, pc, k, mh, memo, sh, calls, stopped, justSolved, hist>>
+          sid, pc, k, mh, memo, sh, calls, stopped, justSolved, hist, tsolve>>
 
 UNSET == <<"unset">>     \* member never written since construction
 UNDEF == <<"undef">>     \* local variable not assigned in this call
@@ -74,7 +75,7 @@ Init ==
   /\ nIter = -1 /\ meanRho = UNSET      \* -1: number_of_iterations_ is not initialised by the constructors
   /\ initNorm = UNDEF /\ curNorm = UNDEF /\ start = <<"none">>
   /\ sid = 0 /\ pc = "idle" /\ k = 0 /\ mh = <<>>
-  /\ memo = <<>> /\ sh = FreshSh /\ calls = 0 /\ stopped = FALSE /\ justSolved = FALSE /\ hist = <<>>
+  /\ memo = <<>> /\ sh = FreshSh /\ calls = 0 /\ stopped = FALSE /\ justSolved = FALSE /\ hist = <<>> /\ tsolve = {}
 
 (* ------------------------------ life-cycle calls ------------------------- *)
 SetOpt(o, v) ==
@@ -85,6 +86,7 @@ SetOpt(o, v) ==
   /\ UNCHANGED <<built, fgs, resNorms, exErrs, nIter, meanRho, initNorm, curNorm, start, sid, pc, k, mh, memo, sh, stopped>>
   /\ justSolved' = FALSE
   /\ hist' = IF GenHist THEN Append(hist, [a |-> "SetOpt", name |-> o, val |-> v]) ELSE hist
+  /\ UNCHANGED tsolve
 
 SetupReject ==
   /\ pc = "idle" /\ calls < MaxCalls /\ Rejected(opts)
@@ -93,6 +95,7 @@ SetupReject ==
   /\ UNCHANGED <<opts, built, fgs, resNorms, exErrs, nIter, meanRho, initNorm, curNorm, start, sid, pc, k, mh, memo, sh, stopped>>
   /\ justSolved' = FALSE
   /\ hist' = IF GenHist THEN Append(hist, [a |-> "Setup", name |-> "", val |-> 0]) ELSE hist
+  /\ UNCHANGED tsolve
 
 SetupBuild ==
   /\ pc = "idle" /\ calls < MaxCalls /\ ~Rejected(opts)
@@ -103,6 +106,7 @@ SetupBuild ==
   /\ UNCHANGED <<opts, resNorms, exErrs, nIter, meanRho, initNorm, curNorm, sid, pc, k, mh, memo, sh, stopped>>
   /\ justSolved' = FALSE
   /\ hist' = IF GenHist THEN Append(hist, [a |-> "Setup", name |-> "", val |-> 0]) ELSE hist
+  /\ tsolve' = {}                    \* resetTimings()
 
 \* ---- solve(): initializeSolution()
 \* the start vector: zero, or the nested iteration; FMG with the defect F8 leaves the finest solution vector as it
@@ -122,6 +126,7 @@ SolveReject ==
   /\ calls' = calls + 1 /\ justSolved' = FALSE
   /\ hist' = IF GenHist THEN Append(hist, [a |-> "Solve", name |-> "", val |-> 0]) ELSE hist
   /\ UNCHANGED <<opts, built, fgs, resNorms, exErrs, nIter, meanRho, initNorm, curNorm, start, sid, pc, k, mh, memo, sh, stopped>>
+  /\ UNCHANGED tsolve
 
 \* a solve on a hierarchy that was built for other options may stop with an exception when it reaches an operator
 \* that setup() did not construct (e.g. the extrapolated smoother); never when setup() is up to date
@@ -129,6 +134,7 @@ SolveAbort ==
   /\ pc \notin {"idle"} /\ ~UpToDate
   /\ pc' = "idle" /\ justSolved' = FALSE
   /\ UNCHANGED <<opts, built, fgs, resNorms, exErrs, nIter, meanRho, initNorm, curNorm, start, sid, k, mh, memo, sh, calls, stopped, hist>>
+  /\ UNCHANGED tsolve
 
 SolveEnter ==
   /\ pc = "idle" /\ calls < MaxCalls /\ built.valid /\ ~MissingRhs
@@ -140,6 +146,7 @@ SolveEnter ==
   /\ UNCHANGED <<opts, built, fgs, resNorms, exErrs, nIter, meanRho, initNorm, curNorm, k, mh, memo, stopped>>
   /\ justSolved' = FALSE
   /\ hist' = IF GenHist THEN Append(hist, [a |-> "Solve", name |-> "", val |-> 0]) ELSE hist
+  /\ tsolve' = IF Fixed("F18") THEN {sid + 1} ELSE tsolve \cup {sid + 1}     \* t_solve_* += ...
 
 \* number_of_iterations_ = 0; histories cleared; smoother mode re-armed; factor initialised; locals declared
 SolveBegin ==
@@ -153,6 +160,7 @@ SolveBegin ==
   /\ pc' = "head"
   /\ UNCHANGED <<opts, built, start, sid, memo, sh, calls, justSolved>>
   /\ UNCHANGED hist
+  /\ UNCHANGED tsolve
 
 \* while (number_of_iterations_ < max_iterations_)
 LoopHead ==
@@ -160,6 +168,7 @@ LoopHead ==
   /\ pc' = IF k < opts.maxIter THEN "err" ELSE "stats"
   /\ UNCHANGED <<opts, built, fgs, resNorms, exErrs, nIter, meanRho, initNorm, curNorm, start, sid, k, mh, memo, sh, calls, stopped, justSolved>>
   /\ UNCHANGED hist
+  /\ UNCHANGED tsolve
 
 \* exact error of the current iterate, if an exact solution is known
 ExactErr ==
@@ -170,6 +179,7 @@ ExactErr ==
      ELSE UNCHANGED <<exErrs, sh>>
   /\ pc' = IF opts.absOn \/ opts.relOn THEN "norm" ELSE "cycle"
   /\ UNCHANGED <<opts, built, fgs, resNorms, nIter, meanRho, initNorm, curNorm, start, sid, k, mh, memo, calls, stopped, justSolved, hist>>
+  /\ UNCHANGED tsolve
 
 \* oracle key: what the numbers of iteration k of this solve can depend on
 Key == <<built, opts.absOn, opts.relOn, opts.misc, start, mh, k>>
@@ -197,6 +207,7 @@ ResNorm(met, bad) ==
   /\ stopped' = met
   /\ pc' = IF met THEN "stats" ELSE "cycle"
   /\ UNCHANGED <<opts, built, exErrs, nIter, meanRho, start, sid, k, mh, calls, justSolved, hist>>
+  /\ UNCHANGED tsolve
 
 \* one multigrid cycle, then number_of_iterations_++
 RunCycle ==
@@ -207,6 +218,7 @@ RunCycle ==
   /\ pc' = "head"
   /\ UNCHANGED <<opts, built, fgs, resNorms, exErrs, meanRho, initNorm, curNorm, start, sid, memo, calls, stopped, justSolved>>
   /\ UNCHANGED hist
+  /\ UNCHANGED tsolve
 
 \* if (number_of_iterations_ > 0) mean_residual_reduction_factor_ = pow(current / initial, 1 / n)
 ComputeStats ==
@@ -221,6 +233,7 @@ ComputeStats ==
   /\ UNCHANGED <<opts, built, fgs, resNorms, exErrs, nIter, initNorm, curNorm, start, sid, k, mh, memo, calls, stopped>>
   /\ justSolved' = TRUE
   /\ UNCHANGED hist
+  /\ UNCHANGED tsolve
 
 Next ==
   \/ \E o \in Settable \cap {"ext", "L", "maxIter", "misc"}, v \in ExtDom \cup LDom \cup MaxIterDom \cup MiscDom : SetOpt(o, v)
@@ -249,6 +262,8 @@ StartIsData == (pc \in {"head", "err", "norm", "cycle", "stats"} /\ UpToDate) =>
 StatsFresh == InC13Domain => /\ nIter = sh.nIter
                              /\ meanRho = sh.meanRho
                              /\ GetErr = sh.lastErr
+\* C13 - the timing statistics describe this solve only
+TimingsOwn == AfterSolve => tsolve = {sid}
 \* C20 - nothing undefined or unset is ever reported
 Defined(x) == x # UNSET /\ x # UNDEF
 StatsDefined == AfterSolve => /\ nIter >= 0 /\ Defined(meanRho)
